@@ -2462,3 +2462,12 @@ def cases(tier, seed):  # noqa: F811
     for s in range(3):
         out.append(dict(clause="majorizes.padded", params=dict(seed=seed + s), input_class="majorizes/different-lengths", nontrivial=True))
     return out
+
+if LEVEL == "exploration":
+    LEVEL = "other"
+LEVEL_TEXT = LEVEL_TEXT + (" Additionally proved (E2, taint analysis of the real AST): every public function and method in this property's anchor files writes through "
+                           "no reference reachable from its arguments (or from self), so results do not depend on call order and callers' arrays / lists are not modified; "
+                           "a run-time frame clause replays the same claim on concrete arguments.")
+EXPLANATION = LEVEL_TEXT
+if "E2-frame" not in globals().get("ENGINES", []):
+    ENGINES = list(globals().get("ENGINES", ["E3-E4-rtc"])) + ["E2-frame"]
